@@ -700,3 +700,27 @@ mod tests {
         assert!(!is_valid_log_line("foo\nbar\n"));
     }
 }
+
+#[cfg(feature = "verif")]
+pub mod verif_hooks {
+    use libc::pid_t;
+
+    impl<'a> super::Meta<'a> {
+        pub fn verif_new(kind: &'a str, pid: pid_t, timestamp: f64, text: &'a str) -> super::Meta<'a> {
+            super::Meta {
+                kind,
+                pid,
+                timestamp,
+                text,
+            }
+        }
+    }
+
+    pub fn parse_done_text(text: &str) -> Option<(i32, &str)> {
+        super::Meta::parse_done_text(text)
+    }
+
+    pub fn is_valid_log_line(line: &str) -> bool {
+        super::is_valid_log_line(line)
+    }
+}
